@@ -217,11 +217,13 @@ def run(rep: Report) -> None:
     from ..front import FunctionInfo
 
     pkg = prog.module("sym_metanet")
+    # every module-level statement except imports, definitions, `__all__` and `del`
     body = [st for st in pkg.tree.body
-            if isinstance(st, (_ast.For, _ast.If, _ast.While, _ast.Try))
-            or (isinstance(st, _ast.Assign) and not any(isinstance(t, _ast.Name) and t.id.startswith("__")
-                                                        for t in st.targets))]
-    has_loop = any(isinstance(st, (_ast.For, _ast.While)) for st in body)
+            if not isinstance(st, (_ast.Import, _ast.ImportFrom, _ast.FunctionDef, _ast.ClassDef, _ast.Delete))
+            and not (isinstance(st, _ast.Assign) and any(isinstance(t, _ast.Name) and t.id.startswith("__")
+                                                         for t in st.targets))
+            and not (isinstance(st, _ast.Expr) and isinstance(st.value, _ast.Constant))]
+    has_loop = bool(body)
     rep.floor("module-level selection statements in sym_metanet/__init__.py", len(body), 1)
     order = None
     try:
